@@ -36,12 +36,18 @@ def run(ctx):
     ctx.call(T.t_s1, "3x/T.S1")
     ctx.call(GR.name_forms, "5n")
     ctx.call(GR.worker_symmetry, "6")
+    ctx.call(GR.flat_expansion, "7")
 
 
 NODE = "cartgraph/node.py"
 G = "cartgraph/graph.py"
 I = "intertest_setup.py"
 MUTANTS = [
+    ("required-dependency-skipped", "cartgraph/graph.py", "                if test_node.params.get(\"require_existence\", \"no\") == \"yes\":\n                    raise\n", "", "7e"),
+    ("all-lookup-errors-swallowed", "cartgraph/graph.py", "            test_nets = get_nets + parse_nets\n        except ValueError:", "            test_nets = get_nets + parse_nets\n        except Exception:", "7v"),
+    ("only-reused-nets-expanded", "cartgraph/graph.py", "            test_nets = get_nets + parse_nets\n", "            test_nets = get_nets or parse_nets\n", "7n"),
+    ("new-nodes-always-new", "cartgraph/graph.py", "            if len(old_nodes) == 0:\n                logging.debug(\n                    f\"Found new node", "            if True:\n                logging.debug(\n                    f\"Found new node", "7p"),
+    ("flat-children-include-flat", "cartgraph/graph.py", "        filtered_children = [n for n in filtered_children if not n.is_flat()]\n", "", "7c"),
     ("first-worker-objects-only", "cartgraph/graph.py", "            old_ids = {o.id for o in graph.objects}\n            graph.new_objects(\n                [s for s in stubs if s.key == \"nets\" or s.id not in old_ids]\n            )",
      "            if i == 0:\n                graph.new_objects(stubs)\n            else:\n                graph.new_objects([s for s in stubs if s.key == \"nets\"])", "6"),
     ("later-workers-nets-only", "cartgraph/graph.py", "            old_ids = {o.id for o in graph.objects}\n            graph.new_objects(\n                [s for s in stubs if s.key == \"nets\" or s.id not in old_ids]\n            )",
